@@ -10,11 +10,6 @@ open JsonV.Model JsonV.Model.Scope JsonV.Gen JsonV.Gen.Scope JsonV.Lemmas.FlagsL
 
 /-! ### closed forms of the four scripts -/
 
-/-- The flags a struct member's value is (un)marshaled with. -/
-def tagged (str : Bool) (fmt : Bytes) (s : Struct) : Struct :=
-  let s1 : Struct := if str then { s with flags := s.flags.set (bv (jsonflags.c_StringTag + 1)) } else s
-  if fmt != [] then { s1 with flags := s1.flags.set (bv (jsonflags.c_FormatTag + 1)), format := fmt } else s1
-
 theorem member_closed (g mar : Bool) (str : Bool) (fmt : Bytes) (body : Act) (s : Struct) :
     exec g (.member mar str fmt body) s =
       let r := exec g body (tagged str fmt s)
@@ -30,22 +25,6 @@ theorem user_closed (g : Bool) (body : Act) (s : Struct) :
       (if saved then r.1 else { r.1 with flags := r.1.flags.set (bv jsonflags.c_WithinArshalCall) }, r.2) := by
   cases h : s.flags.get (bv jsonflags.c_WithinArshalCall) <;>
     simp [exec, runOn, run, userCallS, step, stepPrim, guardOK, h]
-
-/-- `mayAppendSupportFormatTag`. -/
-def callOpts (g : Bool) (opts : List Opt) : List Opt := if g then opts ++ [.formatTagSupport true] else opts
-
-/-- The option struct the body of `UnmarshalDecode` runs with. -/
-def enterUnmarshal (o : List Opt) (s : Struct) : Struct := s.join o
-
-/-- The option struct the body of `MarshalEncode` runs with. -/
-def enterMarshal (o : List Opt) (s : Struct) : Struct :=
-  let j := s.join o
-  if j.flags.has (bv jsonflags.c_AnyWhitespace) && j.flags.get (bv jsonflags.c_Multiline) then initializeMultiline j else j
-
-/-- The two guards at an object-name position. -/
-def nameGuardFails (nn : Bool) (s j : Struct) : Bool :=
-  nn && (s.flags.get (bv jsonflags.c_AllowDuplicateNames) != j.flags.get (bv jsonflags.c_AllowDuplicateNames) ||
-         s.flags.get (bv jsonflags.c_AllowInvalidUTF8) != j.flags.get (bv jsonflags.c_AllowInvalidUTF8))
 
 /-- unfolds one run of a script -/
 macro "script_simp" " [" ts:Lean.Parser.Tactic.simpLemma,* "]" : tactic =>
@@ -81,10 +60,6 @@ theorem call_unmarshal_closed (g : Bool) (opts : List Opt) (nn : Bool) (body : A
     have he : (callOpts g opts).isEmpty = false := by cases h : callOpts g opts <;> simp_all
     simp only [he, Bool.false_eq_true, ↓reduceIte, enterUnmarshal]
     rfl
-
-/-- The whitespace guard of `MarshalEncode`. -/
-def wsGuardFails (o : List Opt) (s : Struct) : Bool :=
-  (s.join o).flags.has (bv jsonflags.c_AnyWhitespace) && changedWhitespace s (enterMarshal o s)
 
 theorem marshal_tail_nonempty (e : Env) (o : List Opt) (s : Struct) (ho : o ≠ []) :
     runOn e (marshalEncodeS.drop 1) o s =
